@@ -248,23 +248,42 @@ NI static void cmd_cons(char **a, int na) {
     exact_free(in, n);
 }
 
-/* bomb TYPE SYNTAX HEX [max_stack] : C15 - decode an adversarial input, report rc and the peak heap held */
-NI static void cmd_bomb(char **a, int na) {
-    asn_TYPE_descriptor_t *td = find_type(a[1]);
-    if(!td || na < 4) { printf("bomb ERR args\n"); return; }
-    enum asn_transfer_syntax sy = syntax_by_name(a[2]);
-    unsigned char *in; size_t n = unhex(a[3], &in);
+/* bomb TYPE SYNTAX HEX [max_stack] : C15 - decode an adversarial input on a painted 16 MiB thread stack; report rc, the peak heap
+ * held and the high-water mark of the stack */
+#include <pthread.h>
+#include <sys/mman.h>
+struct bomb_job { asn_TYPE_descriptor_t *td; enum asn_transfer_syntax sy; unsigned char *in; size_t n; long ms; asn_dec_rval_t rv; size_t peak, big; long allocs; int leak; };
+NI static void *bomb_thread(void *p) {
+    struct bomb_job *j = p;
     asn_codec_ctx_t ctx; memset(&ctx, 0, sizeof ctx);
-    long ms = na > 4 ? atol(a[4]) : -1;
-    if(ms >= 0) ctx.max_stack_size = ms;
+    if(j->ms >= 0) ctx.max_stack_size = j->ms;
     ledger_reset(); ledger_on = 1;
     void *st = 0;
-    asn_dec_rval_t rv = asn_decode(ms >= 0 ? &ctx : 0, sy, td, &st, in, n);
-    size_t peak = ledger_peak_bytes; long allocs = ledger_count; size_t big = ledger_big_request;
-    ASN_STRUCT_FREE(*td, st);
+    j->rv = asn_decode(j->ms >= 0 ? &ctx : 0, j->sy, j->td, &st, j->in, j->n);
+    j->peak = ledger_peak_bytes; j->allocs = ledger_count; j->big = ledger_big_request;
+    ASN_STRUCT_FREE(*j->td, st);
     ledger_on = 0;
-    exact_free(in, n);
-    printf("bomb rc=%d consumed=%zu/%zu peak=%zu allocs=%ld big=%zu leak=%d\n", rv.code, rv.consumed, n, peak, allocs, big, ledger_live());
+    j->leak = ledger_live();
+    return 0;
+}
+NI static void cmd_bomb(char **a, int na) {
+    struct bomb_job j; memset(&j, 0, sizeof j);
+    j.td = find_type(a[1]);
+    if(!j.td || na < 4) { printf("bomb ERR args\n"); return; }
+    j.sy = syntax_by_name(a[2]);
+    j.n = unhex(a[3], &j.in);
+    j.ms = na > 4 ? atol(a[4]) : -1;
+    static unsigned char *stk; const size_t SS = 16u << 20;
+    if(!stk) stk = mmap(0, SS, PROT_READ | PROT_WRITE, MAP_PRIVATE | MAP_ANONYMOUS, -1, 0);
+    if(stk == MAP_FAILED) { printf("bomb ERR mmap\n"); return; }
+    memset(stk, 0xA5, SS);
+    pthread_attr_t at; pthread_attr_init(&at); pthread_attr_setstack(&at, stk, SS);
+    pthread_t th;
+    if(pthread_create(&th, &at, bomb_thread, &j)) { printf("bomb ERR thread\n"); return; }
+    pthread_join(th, 0);
+    size_t lo = 0; while(lo < SS && stk[lo] == 0xA5) lo++;
+    exact_free(j.in, j.n);
+    printf("bomb rc=%d consumed=%zu/%zu peak=%zu allocs=%ld big=%zu leak=%d stack=%zu\n", j.rv.code, j.rv.consumed, j.n, j.peak, j.allocs, j.big, j.leak, SS - lo);
 }
 
 void cmd_mut(char **a, int na);
